@@ -48,11 +48,27 @@ pub struct ChunkBody {
     first: bool,
     /// shared counter of bytes handed to hyper so far (stage detection)
     pub progress: Option<Arc<Mutex<u64>>>,
+    /// a trailers frame that follows the last data frame
+    pub trailers: Option<http::HeaderMap>,
+}
+
+/// the trailer fields that belong to message `id` (request and response side differ)
+pub fn trailers_for(id: u32, response: bool) -> http::HeaderMap {
+    let mut h = http::HeaderMap::new();
+    h.insert("x-trail-id", id.to_string().parse().unwrap());
+    h.insert("x-trail-sum", format!("{:x}", crate::rng::splitmix64(id as u64 * 2 + response as u64)).parse().unwrap());
+    h
+}
+
+/// what a receiver saw of them: `None` if no trailers frame arrived
+pub fn trailers_digest(h: &http::HeaderMap) -> String {
+    let g = |k: &str| h.get(k).and_then(|v| v.to_str().ok()).unwrap_or("-").to_string();
+    format!("{}/{}/{}", g("x-trail-id"), g("x-trail-sum"), h.len())
 }
 
 impl Default for ChunkBody {
     fn default() -> Self {
-        ChunkBody { chunks: VecDeque::new(), delay: Duration::ZERO, sleep: None, first: true, progress: None }
+        ChunkBody { chunks: VecDeque::new(), delay: Duration::ZERO, sleep: None, first: true, progress: None, trailers: None }
     }
 }
 
@@ -67,7 +83,7 @@ impl ChunkBody {
             chunks.push_back(data.slice(off..end));
             off = end;
         }
-        ChunkBody { chunks, delay: Duration::from_millis(delay_ms), sleep: None, first: true, progress: None }
+        ChunkBody { chunks, delay: Duration::from_millis(delay_ms), sleep: None, first: true, progress: None, trailers: None }
     }
 }
 
@@ -77,7 +93,7 @@ impl http_body::Body for ChunkBody {
 
     fn poll_frame(mut self: Pin<&mut Self>, cx: &mut Context<'_>) -> Poll<Option<Result<Frame<Bytes>, Infallible>>> {
         if self.chunks.is_empty() {
-            return Poll::Ready(None);
+            return Poll::Ready(self.trailers.take().map(|t| Ok(Frame::trailers(t))));
         }
         if !self.delay.is_zero() && !self.first {
             if self.sleep.is_none() {
@@ -98,7 +114,7 @@ impl http_body::Body for ChunkBody {
     }
 
     fn is_end_stream(&self) -> bool {
-        self.chunks.is_empty()
+        self.chunks.is_empty() && self.trailers.is_none()
     }
 
     fn size_hint(&self) -> http_body::SizeHint {
@@ -517,11 +533,14 @@ pub struct HandlerPlan {
     /// Location header pointing at this URI (which carries `hop=1`), and an empty body
     #[serde(default)]
     pub redirect: Option<(u16, String)>,
+    /// the response body ends with a trailers frame (judged where the connection is HTTP/2)
+    #[serde(default)]
+    pub resp_trailers: bool,
 }
 
 impl Default for HandlerPlan {
     fn default() -> Self {
-        HandlerPlan { delay_ms: 0, resp_len: 5, resp_chunk: 64, resp_delay_ms: 0, fail: false, upgrade: false, redirect: None }
+        HandlerPlan { delay_ms: 0, resp_len: 5, resp_chunk: 64, resp_delay_ms: 0, fail: false, upgrade: false, redirect: None, resp_trailers: false }
     }
 }
 
@@ -547,6 +566,8 @@ pub struct Seen {
     pub user_agent: Option<String>,
     /// value of the TE header as received (`te: trailers` is the one form that is legal over HTTP/2 too)
     pub te: Option<String>,
+    /// digest of the trailers frame the request body ended with, if one arrived
+    pub req_trailers: Option<String>,
 }
 
 #[derive(Default)]
@@ -612,6 +633,7 @@ pub async fn handle(ctx: HandlerCtx, conn: u32, mut req: http::Request<hyperdriv
             hop: if req.uri().query().map(|q| q.split('&').any(|kv| kv == "hop=1")).unwrap_or(false) { 1 } else { 0 },
             user_agent: req.headers().get(http::header::USER_AGENT).and_then(|v| v.to_str().ok()).map(|s| s.to_string()),
             te: req.headers().get(http::header::TE).and_then(|v| v.to_str().ok()).map(|s| s.to_string()),
+            req_trailers: None,
         });
         log.seen.len() - 1
     };
@@ -636,6 +658,9 @@ pub async fn handle(ctx: HandlerCtx, conn: u32, mut req: http::Request<hyperdriv
                             }
                             got += 1;
                         }
+                    }
+                    if let Some(t) = f.trailers_ref() {
+                        ctx.log.lock().seen[idx].req_trailers = Some(trailers_digest(t));
                     }
                 }
                 Some(Err(e)) => {
@@ -726,6 +751,9 @@ pub async fn handle(ctx: HandlerCtx, conn: u32, mut req: http::Request<hyperdriv
         return Ok(resp);
     }
     let mut resp = http::Response::new(ChunkBody::new(resp_body(id, plan.resp_len), plan.resp_chunk, plan.resp_delay_ms));
+    if plan.resp_trailers {
+        resp.body_mut().trailers = Some(trailers_for(id, true));
+    }
     *resp.status_mut() = http::StatusCode::from_u16(status_for(id)).unwrap();
     let h = resp.headers_mut();
     h.insert("x-req-id", id.to_string().parse().unwrap());
